@@ -94,11 +94,13 @@ func render(info *types.Info, e ast.Expr, subst map[types.Object]string) string 
 }
 
 type pcond struct {
-	expr  ast.Expr
-	truth bool
-	loop  bool        // comes from a for-loop condition
-	exit  *ast.IfStmt // negation of this early exit
-	text  string      // for type-switch cases and comma-ok
+	expr   ast.Expr
+	truth  bool
+	loop   bool            // comes from a for-loop condition
+	exit   *ast.IfStmt     // negation of this early exit
+	text   string          // for type-switch cases and comma-ok
+	clause *ast.CaseClause // the case clause a text condition comes from
+	sw     ast.Stmt        // and its switch statement
 }
 
 // splitCond flattens && (when true) and || (when false) and strips negations.
@@ -142,6 +144,17 @@ func pathConds(fd *ast.FuncDecl, target ast.Node) []pcond {
 	if !found {
 		return nil
 	}
+	enclosingSwitch := func(i int) ast.Stmt {
+		for j := i - 1; j >= 0; j-- {
+			switch s := path[j].(type) {
+			case *ast.SwitchStmt:
+				return s
+			case *ast.TypeSwitchStmt:
+				return s
+			}
+		}
+		return nil
+	}
 	for i := 0; i < len(path)-1; i++ {
 		child := path[i+1]
 		switch p := path[i].(type) {
@@ -161,9 +174,9 @@ func pathConds(fd *ast.FuncDecl, target ast.Node) []pcond {
 				for _, e := range p.List {
 					names = append(names, es(e))
 				}
-				out = append(out, pcond{text: "case " + strings.Join(names, ","), truth: true})
+				out = append(out, pcond{text: "case " + strings.Join(names, ","), truth: true, clause: p, sw: enclosingSwitch(i)})
 			} else {
-				out = append(out, pcond{text: "default", truth: true})
+				out = append(out, pcond{text: "default", truth: true, clause: p, sw: enclosingSwitch(i)})
 			}
 		case *ast.ForStmt:
 			if p.Cond != nil && child == ast.Node(p.Body) {
